@@ -68,7 +68,7 @@ impl Prop for C09 {
         true
     }
     fn random_cases(tier: Tier) -> u64 {
-        tier.pick(2_500, 30_000)
+        tier.pick(2_500, 100_000)
     }
     fn strategy(tier: Tier) -> BoxedStrategy<LzInput> {
         lz_input(tier.pick(12_000, 100_000)).prop_map(LzInput::Spec).boxed()
